@@ -1,5 +1,6 @@
 import CasbinVerif.Driver.Proto
 import CasbinVerif.Model.Loader
+import CasbinVerif.Model.Distributed
 import CasbinVerif.Spec.Perm
 import CasbinVerif.Spec.Mirror
 /-
@@ -183,6 +184,10 @@ def parseFilter (ts : List String) : Option (Option Flt.Filter) :=
           | _, _ => none
       | _ => none) (some {})
 
+/-- the persist predicate of a Self call: `n` = nil, `0` / `1` = a function returning false / true -/
+def parsePersist : String → Option (Option Bool)
+  | "n" => some none | "0" => some (some false) | "1" => some (some true) | _ => none
+
 def enfOp (st : EnfSt) (ts : List String) : Option (EnfSt × String × String × Bool) :=
   let hdr (st' : EnfSt) : Option (EnfSt × String × String × Bool) := some (st', "#", "-", true)
   match ts with
@@ -356,6 +361,42 @@ def enfOp (st : EnfSt) (ts : List String) : Option (EnfSt × String × String ×
       | "obs", ["fatext"] => do
           let fa ← st.fa
           ret e ("t:" ++ encodeTok (String.ofList fa.text)) "-" true
+      | "dist-add", per :: sec :: pt :: rs => do
+          let rules ← decodeRules rs
+          let pr ← parsePersist per
+          let (e', aff, err) := e.addPoliciesSelf pr sec pt rules
+          some ({ st with enf := some { ep with base := e' }.syncCache }, s!"A {encodeRules aff} E {if err then 1 else 0}", "-", true)
+      | "dist-rm", per :: sec :: pt :: rs => do
+          let rules ← decodeRules rs
+          let pr ← parsePersist per
+          let (e', aff, err) := e.removePoliciesSelf pr sec pt rules
+          some ({ st with enf := some { ep with base := e' }.syncCache }, s!"A {encodeRules aff} E {if err then 1 else 0}", "-", true)
+      | "dist-rmf", per :: sec :: pt :: fi :: vals => do
+          let fi ← fi.toNat?
+          let vs ← decodeAll vals
+          let pr ← parsePersist per
+          match e.removeFilteredPolicySelf pr sec pt fi vs with
+          | some (e', aff, err) =>
+              some ({ st with enf := some { ep with base := e' }.syncCache }, s!"A {encodeRules aff} E {if err then 1 else 0}", "-", true)
+          | none => some ({ st with histOk := false }, "panic", "-", false)
+      | "dist-clear", [per] => do
+          let pr ← parsePersist per
+          let (e', err) := e.clearPolicySelf pr
+          some ({ st with enf := some { ep with base := e' }.syncCache }, s!"E {if err then 1 else 0}", "-", true)
+      | "dist-upd", per :: sec :: pt :: rest => do
+          let pr ← parsePersist per
+          let (a, b) ← splitTwo "|" rest
+          let old ← decodeAll a
+          let new ← decodeAll b
+          let (e', upd, err) := e.updatePolicySelf pr sec pt old new
+          some ({ st with enf := some { ep with base := e' }.syncCache }, s!"{showBool upd} E {if err then 1 else 0}", "-", true)
+      | "dist-upds", per :: sec :: pt :: rest => do
+          let pr ← parsePersist per
+          let (a, b) ← splitTwo "||" rest
+          let olds ← decodeRules a
+          let news ← decodeRules b
+          let (e', upd, err) := e.updatePoliciesSelf pr sec pt olds news
+          some ({ st with enf := some { ep with base := e' }.syncCache }, s!"{showBool upd} E {if err then 1 else 0}", "-", true)
       | "addmf", [gt, f] =>
           let (ep', ok) := ep.addMatchingFunc gt f
           retP ep' (showBool ok) "-" true
